@@ -258,7 +258,9 @@ def run(ctx):
             im = np.array([rng.randint(-32768, 32767) for _ in range(n)], np.int64).reshape(shape)
             if dt == CI:
                 return mk_ci(re.astype(np.int16), im.astype(np.int16))
-            frac = np.array([rng.choice([0.0, 0.25, 0.5, 0.75]) for _ in range(n)]).reshape(shape)
+            # fractions incl. values just below the next integer (a detour through a narrower float type would round them up)
+            near = [1 - 2.0 ** -30, 1 - 2.0 ** -44] if np.dtype(dt) == np.complex128 else [1 - 2.0 ** -8]
+            frac = np.array([rng.choice([0.0, 0.25, 0.5, 0.75] + near) for _ in range(n)]).reshape(shape)
             return ((re + np.sign(re) * frac * (np.abs(re) < 32767)) + 1j * (im + np.sign(im) * frac * (np.abs(im) < 32767))).astype(dt)
 
         def parts(a):
@@ -318,7 +320,9 @@ def run(ctx):
         # ---- (5) unsupported dtypes ----------------------------------------------------------------------------------
         a = make(CI, (3,))
         for bad in (np.float64, np.float32, np.int16, np.int32, "U3", np.bool_, np.clongdouble, np.dtype([("real", np.int32), ("imag", np.int32)]),
-                    np.dtype([("re", np.int16), ("im", np.int16)]), object):
+                    np.dtype([("re", np.int16), ("im", np.int16)]), object, np.dtype("V4"), np.dtype("V8"), np.dtype("V16"), np.void, "V2",
+                    np.dtype("i2,i2"), np.dtype([("real", ">i2"), ("imag", ">i2")]), np.dtype([("real", "<i2"), ("imag", "<i2"), ("pad", "u1")]), "S4",
+                    np.datetime64, np.uint32):
             for v in (a, make(np.dtype(np.complex64), (2,)), make(np.dtype(np.complex128), ())):
                 r = outcome(convert_complex, bad, v)
                 ctx.case(("unsupported", str(bad)))
